@@ -353,7 +353,11 @@ func checkC02(w *World, r *Report) {
 	// R6 / R8 from the typestate engine
 	r.Rule("C02.R8", "the worker loop re-reads the status before every batch (a stopped process gets no further batch)", 1)
 	checkLoopStatus(w, r, "C02.R8")
-	lta := w.runLTA()
+	lta := w.findProcRoles().lta
+	if lta == nil {
+		r.Unknown("C02.R6", "lta", "typestate engine", "-", "actor.process not found")
+		return
+	}
 	lta.export(r, "C02.R6", []string{"delivery-concurrent-with-worker", "inbox-started-after-cleanup"}, "no delivery on the spawning goroutine once the inbox is open; no inbox restart after cleanup")
 }
 
